@@ -391,6 +391,47 @@ Proof.
   injection P1 as <-. injection P2 as <-. apply cmp_release_same_arity. assumption.
 Qed.
 
+Lemma num_ok_dec n : n < two63 -> num_ok (dec n) = true.
+Proof. intros H. unfold num_ok. rewrite dec_val. apply N.ltb_lt. assumption. Qed.
+Lemma num_dec n : num (dec n) = Z.of_N n.
+Proof. unfold num. rewrite dec_val. reflexivity. Qed.
+
+(* ---------- an explicit epoch ---------- *)
+
+Definition epoch_core (e : N) (t : list N) : core := {|
+  c_epoch := Z.of_N e; c_release := map Z.of_N t;
+  c_pre := None; c_post := None; c_dev := None; c_local := [] |}.
+
+Lemma scan_epoch_hit e s : scan_epoch (dec e ++ "!"%char :: s) = (Some (dec e), s).
+Proof.
+  unfold scan_epoch.
+  rewrite take_digits, drop_digits by (try apply dec_digits; reflexivity).
+  pose proof (dec_nonempty e). destruct (dec e); [congruence|]. reflexivity.
+Qed.
+
+(* N!<tuple> is accepted and denotes epoch N, release <tuple> *)
+Theorem parse_core_epoch e t :
+  (e < two63) -> nums_ok t ->
+  parse_core (dec e ++ $"!" ++ dotted t) = Some (epoch_core e t).
+Proof.
+  intros He [Ht Hn]. unfold parse_core.
+  change (dec e ++ $"!" ++ dotted t) with (dec e ++ "!"%char :: dotted t).
+  rewrite scan_epoch_hit.
+  rewrite <- (app_nil_r (dotted t)) at 1. rewrite scan_release_dotted by (try assumption; exact I).
+  unfold parse_tail. rewrite (split_dotted t Ht).
+  destruct (parts_ok t Hn) as (P1 & P2 & P3).
+  change (scan_suffix []) with (Some (@None (bytes * bytes), @None (bytes * bytes), @None (bytes * bytes), @nil ascii)).
+  cbv iota beta. rewrite P1, P2, P3, (num_ok_dec e He), num_dec. reflexivity.
+Qed.
+
+(* the epoch dominates the release *)
+Theorem cmp_epoch e1 t1 e2 t2 :
+  e1 <> e2 -> cmp_core (epoch_core e1 t1) (epoch_core e2 t2) = (e1 ?= e2).
+Proof.
+  intros H. unfold cmp_core, lexc, cmp_on, epoch_core. cbn [c_epoch].
+  rewrite N2Z.inj_compare. destruct (N.compare_spec e1 e2); [congruence|reflexivity|reflexivity].
+Qed.
+
 (* ---------- markers ---------- *)
 
 (* the version  <tuple><sep><marker><number>  *)
@@ -428,11 +469,6 @@ Definition with_post (t : list N) (n : N) : core := {|
 Definition with_dev (t : list N) (n : N) : core := {|
   c_epoch := 0%Z; c_release := map Z.of_N t;
   c_pre := None; c_post := None; c_dev := Some (Z.of_N n); c_local := [] |}.
-
-Lemma num_ok_dec n : n < two63 -> num_ok (dec n) = true.
-Proof. intros H. unfold num_ok. rewrite dec_val. apply N.ltb_lt. assumption. Qed.
-Lemma num_dec n : num (dec n) = Z.of_N n.
-Proof. unfold num. rewrite dec_val. reflexivity. Qed.
 
 Lemma letters_of_mem m ms : forallb letters_ne ms = true -> mem m ms = true -> letters_ne m = true.
 Proof.
@@ -520,3 +556,5 @@ Print Assumptions parse_pre.
 Print Assumptions parse_post.
 Print Assumptions parse_dev.
 Print Assumptions pre_lt_release.
+Print Assumptions parse_core_epoch.
+Print Assumptions cmp_epoch.
